@@ -54,6 +54,10 @@ ASSUMPTIONS = [
     "no Pillow in the sandbox: DCT data is compared byte for byte, CMYK/JPX conversions are outside the property",
 ]
 STATEMENT_STATUS = {
+    "C18_inline_scan_total": "proved (every input, every hint: consumed = body E I ws | body E I at end; data = finish(body), a prefix of body)",
+    "C18_inline_scan_ws_rule": "proved (any separator, also none, after a body without marker whose last byte is not E/I)",
+    "C18_inline_scan_pseof": "proved (no marker and not ending in EI: PSEOF)",
+    "C18_inline_scan_norestart_cex": "proved (E directly in front of EI hides the marker: limit of the rule)",
     "C18_branch_table": "proved (decision table of export_image over plausibility, filters, bits, colour space: total, rows disjoint)",
     "C18_export_by_branch": "proved (export_image = what the selected row does; tied by spying on the _save_* calls)",
     "C18_bmp_rt": "proved (gray-8, RGB-8, 1-bit; all w,h >= 1 within BMP limits; any lossless filter list; any listing)",
@@ -1225,6 +1229,67 @@ def check_inline_case(ctx: C.Ctx, case, in_domain: bool, lines, impl, inputs) ->
             ctx.fail(C.Failure(v2[0], {"mode": "inline", "case": small}, v2[1], v2[2], v2[3]))
 
 
+# ---- round 6: the end-marker rule on arbitrary scanner input (C18_inline_scan_total / _ws_rule / _pseof)
+
+_WS = b" \t\n\r\x0b\x0c"
+SCAN_BODIES = [b"", b"a", b"E", b"I", b"EI", b"EIx", b"xEIx", b"EIEI", b"EE", b"aEIb E", b"\x00EI\x00", b"EI\x00 ", b"E I", b"aE",
+               b"aI", b"abEIcdEI", b"~>", b"\r", b"\n", b"\r\n", b"E\n", b"I\r", b"EI\xff", b"\xffEIEIEIx", b"EEEI", b"EIE"]
+SCAN_SEPS = [b"", b" ", b"\t", b"\n", b"\r", b"\r\n", b"\x00", b"\x0c", b"\x0b", b"  ", b"\n\n", b"x"]
+SCAN_TAILS = [b"EI Q", b"EI\nQ", b"EI\tq EI ", b"EI", b"EI\x00Q", b"EIQ", b"", b"E", b"EI\rEI\n", b"EI\x0cBT"]
+
+
+def scan_oracle(inp: bytes, reply: str) -> Optional[str]:
+    """What holds for EVERY input (theorem C18_inline_scan_total), evaluated on the implementation's reply."""
+    if not reply.startswith("OK "):
+        return None
+    _, dhex, n = reply.split(" ")
+    d = b"" if dhex == "-" else bytes.fromhex(dhex)
+    n = int(n)
+    if n > len(inp):
+        return "consumed more bytes than the content stream has"
+    used = inp[:n]
+    if len(used) >= 3 and used[-3:-1] == b"EI" and used[-1:] in [bytes((c,)) for c in _WS]:
+        body = used[:-3]
+    elif n == len(inp) and used.endswith(b"EI"):
+        body = used[:-2]
+    else:
+        return "the bytes consumed for an inline image do not end in the end marker"
+    if not body.startswith(d):
+        return "inline image data is not a prefix of the bytes in front of the end marker"
+    if len(body) - len(d) > 2:
+        return "more than one end-of-line was cut from the inline image data"
+    return None
+
+
+def check_scan_input(ctx: C.Ctx, inp: bytes, hint: Optional[int], bufsiz: int, lines, impl, inputs) -> None:
+    reply = impl_inline(inp, 0, b"EI", bufsiz, hint)
+    ctx.case(("scan", inp, hint, bufsiz), len(inp) > 4, branch="scan:" + reply.split(" ")[0])
+    if b"EI" in inp[:-3]:
+        ctx.branch("scan:EI-bytes-inside")
+    lines.append("inlinelen 4549 %s %s" % ("-" if hint is None else hint, C.hx(inp)))
+    impl.append(reply)
+    inputs.append(("inlinelen", {"mode": "scan", "input": inp.hex(), "hint": hint, "bufsiz": bufsiz}))
+    bad = scan_oracle(inp, reply)
+    if bad is not None:
+        ctx.fail(C.Failure(bad, {"mode": "scan", "input": inp.hex(), "hint": hint, "bufsiz": bufsiz},
+                           "body E I ws consumed, data a prefix of body", reply, {"area": "scan"}))
+
+
+def run_scan_rule(ctx: C.Ctx, lines, impl, inputs) -> None:
+    rng = ctx.rng
+    combos = [(b, s_, t) for b in SCAN_BODIES for s_ in SCAN_SEPS for t in SCAN_TAILS]
+    if ctx.tier == "quick" and ctx.boost == 1:
+        combos = rng.sample(combos, 900)
+    for b, s_, t in combos:
+        inp = b + s_ + t
+        hint = rng.choice([None, None, len(b), len(b), len(b) + 1, max(0, len(b) - 1), 0, 1000])
+        check_scan_input(ctx, inp, hint, rng.choice([1, 2, 3, 5, 8, 4096]), lines, impl, inputs)
+        ctx.branch("scan:sep=" + (s_.hex() or "none"))
+    for _ in range(ctx.n(600, 20000)):
+        inp = bytes(rng.choice(b"EEII \n\r\tx\x00") for _ in range(rng.randint(0, 14)))
+        check_scan_input(ctx, inp, rng.choice([None, rng.randint(0, 12)]), rng.choice([1, 2, 3, 4096]), lines, impl, inputs)
+
+
 def run_inline(ctx: C.Ctx) -> None:
     rng = ctx.rng
     lines: List[str] = []
@@ -1236,6 +1301,7 @@ def run_inline(ctx: C.Ctx) -> None:
         wild = i % 5 == 4
         case = gen_inline_case(rng, not wild)
         check_inline_case(ctx, case, not wild, lines, impl, inputs)
+    run_scan_rule(ctx, lines, impl, inputs)
     # ASCII85 end marker `~>` (the tie only: the scanner is the same function with another target)
     for i in range(ctx.n(600, 10000)):
         body = bytes(rng.choice(b"~>ab!z \n\rEI") for _ in range(rng.choice([0, 1, 3, 9, 40])))
@@ -1466,6 +1532,10 @@ def replay(ctx: C.Ctx, doc, from_corpus: bool = False) -> None:
     elif mode == "inline":
         lines, impl, inputs = [], [], []
         check_inline_case(ctx, inp["case"], True, lines, impl, inputs)
+        ask_and_compare(ctx, lines, impl, inputs)
+    elif mode == "scan":
+        lines, impl, inputs = [], [], []
+        check_scan_input(ctx, bytes.fromhex(inp["input"]), inp.get("hint"), inp.get("bufsiz", 4096), lines, impl, inputs)
         ask_and_compare(ctx, lines, impl, inputs)
     elif mode == "align32":
         from pdfminer import image as I
